@@ -7,6 +7,7 @@ import (
 
 	"github.com/oneconcern/datamon/pkg/errors"
 	"github.com/oneconcern/datamon/pkg/storage"
+	"github.com/oneconcern/datamon/pkg/storage/status"
 	"go.uber.org/zap"
 )
 
@@ -52,6 +53,22 @@ func existsAndValidBlob(ctx context.Context, store storage.Store, pth string, da
 	}
 
 	return found, overwrite
+}
+
+// refreshBlob updates the modification time of an existing blob that is about to be reused by a new object.
+//
+// A purge job removes the blobs that its index does not know about, unless they are more recent than this index:
+// a blob left over by some deleted object must be marked as recently used, or it may be removed under the new object.
+//
+// It returns false when the blob could not be refreshed (e.g. it has been deleted in the meantime) and must be written again.
+func refreshBlob(ctx context.Context, store storage.Store, pth string, lg *zap.Logger) bool {
+	err := store.Touch(ctx, pth)
+	if err == nil || errors.Is(err, status.ErrNotImplemented) {
+		return true
+	}
+	lg.Warn("cafs could not refresh an existing blob", zap.Error(err))
+
+	return false
 }
 
 // verifyBlob verifies that a written blob is as expected.
